@@ -733,6 +733,7 @@ def run(repo, rep, tier):
 
     # ---- R2: NocaseDict --------------------------------------------------
     ncd = repo.cls('pywbem/_vendor/nocasedict/_nocasedict.py', 'NocaseDict')
+    _r8_dict_copy(repo, rep, ncd)
     hm = repo.cls('pywbem/_vendor/nocasedict/_hashable.py', 'HashableMixin')
     vpath = ncd.module.relpath
     r2.sites += 1
@@ -896,3 +897,64 @@ def run(repo, rep, tier):
         rep.finding(r6, ss.qualname, 'setattr', 'setattr', TYP,
                     ss.node.lineno, '__setstate__ does not restore '
                     'attributes with setattr')
+
+
+def _r8_dict_copy(repo, rep, ncd):
+    """C05.R8: NocaseDict.copy() yields an object that behaves like the
+    original: when it instantiates the dynamic class of self (a repo subclass
+    with extra per-instance state set by __init__), that state must be
+    transferred as well - otherwise the copy is reset to the subclass default
+    (e.g. allow_unnamed_keys) and ==, hash() and item access of the copy
+    raise for keys the original holds."""
+    r8 = rep.rule('C05.R8', 'NocaseDict.copy() transfers the per-instance '
+                  'state of the class it instantiates')
+    cp = ncd.methods.get('copy')
+    if cp is None:
+        raise AnalysisError('vendored NocaseDict.copy vanished')
+    r8.functions.add(cp.fq)
+    r8.sites += 1
+    ctor = None
+    for n in walk_no_nested(cp.node):
+        if isinstance(n, ast.Assign) and isinstance(n.value, ast.Call) and \
+                not n.value.args and not n.value.keywords:
+            ctor = n
+            break
+    if ctor is None:
+        r8.undecided.append('copy(): construction of the result not '
+                            'recognised')
+        return
+    res = norm(ctor.targets[0])
+    fn = ctor.value.func
+    dynamic = (isinstance(fn, ast.Call) and dotted(fn.func) == 'type') or \
+        norm(fn) in ('self.__class__', 'type(self)')
+    transferred = {n.targets[0].attr for n in walk_no_nested(cp.node)
+                   if isinstance(n, ast.Assign) and
+                   isinstance(n.targets[0], ast.Attribute) and
+                   norm(n.targets[0].value) == res}
+    missing = []
+    if dynamic:
+        for sub in repo.subclasses_of(ncd.name):
+            if sub is ncd or sub.methods.get('copy') is not None:
+                continue
+            init = sub.methods.get('__init__')
+            if init is None:
+                continue
+            for n in walk_no_nested(init.node):
+                if isinstance(n, ast.Assign) and \
+                        isinstance(n.targets[0], ast.Attribute) and \
+                        norm(n.targets[0].value) == 'self' and \
+                        n.targets[0].attr not in transferred:
+                    missing.append('%s.%s' % (sub.name, n.targets[0].attr))
+    ok = not missing
+    r8.ob(ok, 'NocaseDict.copy', {'constructs': norm(ctor.value),
+                                  'dynamic_class': dynamic,
+                                  'transfers': sorted(transferred),
+                                  'subclass_state_not_transferred': missing})
+    if not ok:
+        rep.finding(r8, cp.qualname, norm(ctor), 'state-not-copied',
+                    ncd.module.relpath, ctor.lineno,
+                    'copy() instantiates the class of self but does not '
+                    'transfer %s, which its __init__ resets to the default: '
+                    'a keybindings dictionary with an unnamed key (key None) '
+                    'yields a copy on which ==, != and item access raise '
+                    'ValueError' % ', '.join(missing))
